@@ -2042,9 +2042,10 @@ class Builder:
                     # If the request was sequential, each pair has already been
                     # measured and does not need to be freed.
                     # Otherwise: free the qubits.
+                    # (The handles stay valid: the qubits are generated again in the next try.)
                     if not params.sequential:
                         for q in qubits:
-                            q.free()
+                            self._build_cmds_qfree(q.qubit_id)
 
                 loop.set_cleanup_code(cleanup)
 
@@ -2082,9 +2083,10 @@ class Builder:
                     # If the request was sequential, each pair has already been
                     # measured and does not need to be freed.
                     # Otherwise: free the qubits.
+                    # (The handles stay valid: the qubits are generated again in the next try.)
                     if not params.sequential:
                         for q in qubits:
-                            q.free()
+                            self._build_cmds_qfree(q.qubit_id)
 
                 loop.set_cleanup_code(cleanup)
 
